@@ -7,7 +7,9 @@
   Value level (heap.go:DecodeTuple): `C10_isolate_value_before` (columns in front of a damaged value),
   `C10_isolate_value_after` (columns behind it: unchanged exactly when the damaged value still ends at the same
   offset), and the counter-example `C10_value_after_shift` showing that the second hypothesis cannot be dropped.
-  Helper lemmas: Proofs/Isolation.lean, Proofs/IsolationRows.lean.  No well-formedness of any byte is assumed.
+  Resource clause at the tuple level: `C10_size_parsePage`, `C10_size_readTuples` (unconditional since fix heap/02).
+  Helper lemmas: Proofs/Isolation.lean, Proofs/IsolationRows.lean, Proofs/PageSize.lean.  No well-formedness of any byte
+  is assumed.
 -/
 import PgVerif.Proofs.Isolation
 import PgVerif.Proofs.IsolationRows
@@ -19,9 +21,12 @@ open PgVerif PgVerif.Model PgVerif.Proofs PgVerif.Proofs.Isolation
 line-pointer array parses to `pre ++ bad :: post`.  `data'` is ANY page of the same length that differs from `data` only
 inside the storage `[bad.offset, bad.offset + bad.length)` of the one pointer `bad` — the tuple behind it damaged in any
 way.  If that storage begins behind the line-pointer array and no other NORMAL pointer (flags = 1, length ≠ 0) overlaps
-it — PostgreSQL never overlaps tuples; a pointer in any other state may point anywhere — then ParsePage reports on both
-pages exactly the same tuples for `pre` (list `A`) and for `post` (list `B`), in the same order; only the entry of `bad`
-itself (`r` vs `r'`: a tuple, another tuple, or nothing) can differ. -/
+it (otherwise the damage is not confined to ONE tuple; a pointer in any other state may point anywhere) then ParsePage
+reports on both pages exactly the same tuples for `pre` (list `A`) and for `post` (list `B`), in the same order; only the
+entry of `bad` itself (`r` vs `r'`: a tuple, another tuple, or nothing) can differ.  This holds with the overlap guard of
+ParsePage (fix heap/02) in place: whether `bad` is reported or not changes what is claimed, but no other NORMAL pointer
+touches that storage, and the pointers of `pre` / `post` may overlap EACH OTHER in any way (the guard then decides the
+same on both pages). -/
 theorem C10_isolate_tuple (data data' : Bytes) (h : PageHeader) (pre post : List ItemID) (bad : ItemID)
     (hd : 8192 ≤ data.length) (hh : parseHeader data = .ok h) (hv : validHeader h = true)
     (hi : parseItems data h.lower = .ok (pre ++ bad :: post))
@@ -34,7 +39,7 @@ theorem C10_isolate_tuple (data data' : Bytes) (h : PageHeader) (pre post : List
   have hd' : 8192 ≤ data'.length := by rw [hagree.1]; exact hd
   have hh' : parseHeader data' = .ok h := by rw [parseHeader_eq hagree (by omega)]; exact hh
   have hi' : parseItems data' h.lower = .ok (pre ++ bad :: post) := by rw [parseItems_eq hagree _ hlow]; exact hi
-  -- every other pointer is reported the same on both pages
+  -- every other pointer's own step is the same on both pages
   have hsame : ∀ it ∈ pre ++ post, pageItem data' h.upper it = pageItem data h.upper it := by
     intro it hit
     by_cases hn : it.flags = 1 ∧ it.length ≠ 0
@@ -47,23 +52,43 @@ theorem C10_isolate_tuple (data data' : Bytes) (h : PageHeader) (pre post : List
         · simp [hf]
       unfold pageItem
       simp only [hc, if_true]
-  obtain ⟨A, hA⟩ := collectM_total (pageItem data h.upper) pre (pageItem_total data hd h.upper)
-  obtain ⟨B, hB⟩ := collectM_total (pageItem data h.upper) post (pageItem_total data hd h.upper)
-  obtain ⟨r, hr⟩ := pageItem_total data hd h.upper bad
-  obtain ⟨r', hr'⟩ := pageItem_total data' hd' h.upper bad
-  have hA' : collectM (pageItem data' h.upper) pre = .ok A := by
-    rw [collectM_congr _ (pageItem data h.upper) pre (fun x hx => hsame x (by simp [hx]))]; exact hA
-  have hB' : collectM (pageItem data' h.upper) post = .ok B := by
-    rw [collectM_congr _ (pageItem data h.upper) post (fun x hx => hsame x (by simp [hx]))]; exact hB
+  have hsame_pre : ∀ it ∈ pre, pageItem data' h.upper it = pageItem data h.upper it := fun x hx => hsame x (by simp [hx])
+  have hsame_post : ∀ it ∈ post, pageItem data' h.upper it = pageItem data h.upper it := fun x hx => hsame x (by simp [hx])
+  -- what `pre` reports and claims is the same on both pages
+  obtain ⟨A, hA⟩ := pageLoop_total data hd h.upper pre []
+  have hA' : pageLoop data' h.upper pre [] = .ok A := by
+    rw [pageLoop_congr h.upper pre [] [] hsame_pre (fun _ _ _ _ => rfl)]; exact hA
+  have hc' : claimedBy data' h.upper pre [] = claimedBy data h.upper pre [] := claimedBy_congr h.upper pre [] hsame_pre
+  obtain ⟨c1, hc1⟩ : ∃ c1, c1 = claimedBy data h.upper pre [] := ⟨_, rfl⟩
+  -- `post` reports the same on both pages, whether or not `bad` was claimed
+  obtain ⟨B, hB⟩ := pageLoop_total data hd h.upper post c1
+  have hbad : ∀ it ∈ post, it.flags = 1 → it.length ≠ 0 → overlapsAny (c1 ++ [bad]) it = overlapsAny c1 it := by
+    intro it hit h1 h2
+    have hno : it.overlaps bad = false := by
+      rw [overlaps_false_iff]
+      rcases hdis it (by simp [hit]) h1 h2 with hl | hr
+      · exact Or.inr hl
+      · exact Or.inl hr
+    rw [overlapsAny_append, overlapsAny_single, hno, Bool.or_false]
+  have hB1 : pageLoop data h.upper post (c1 ++ [bad]) = .ok B := by
+    rw [pageLoop_congr h.upper post c1 (c1 ++ [bad]) (fun _ _ => rfl) hbad]; exact hB
+  have hB' : pageLoop data' h.upper post c1 = .ok B := by
+    rw [pageLoop_congr h.upper post c1 c1 hsame_post (fun _ _ _ _ => rfl)]; exact hB
+  have hB1' : pageLoop data' h.upper post (c1 ++ [bad]) = .ok B := by
+    rw [pageLoop_congr h.upper post c1 (c1 ++ [bad]) hsame_post hbad]; exact hB
+  obtain ⟨r, hr⟩ := pageItemG_total data hd h.upper c1 bad
+  obtain ⟨r', hr'⟩ := pageItemG_total data' hd' h.upper c1 bad
   refine ⟨A, B, r, r', ?_, ?_⟩
-  · rw [parsePage_items data hd h hh hv _ hi]
-    have := collectM_append (pageItem data h.upper) pre (bad :: post) A (r.toList ++ B) hA
-      (collectM_append (pageItem data h.upper) [bad] post _ B (collectM_single _ bad r hr) hB)
-    simpa using this
-  · rw [parsePage_items data' hd' h hh' hv _ hi']
-    have := collectM_append (pageItem data' h.upper) pre (bad :: post) A (r'.toList ++ B) hA'
-      (collectM_append (pageItem data' h.upper) [bad] post _ B (collectM_single _ bad r' hr') hB')
-    simpa using this
+  · rw [parsePage_items data hd h hh hv _ hi, pageLoop_append, hA, ← hc1]
+    simp only [ok_bind]
+    cases r with
+    | none => rw [pageLoop_cons_none _ _ _ _ _ hr, hB]; simp
+    | some t => rw [pageLoop_cons_some _ _ _ _ _ t hr, hB1]; simp
+  · rw [parsePage_items data' hd' h hh' hv _ hi', pageLoop_append, hA', hc', ← hc1]
+    simp only [ok_bind]
+    cases r' with
+    | none => rw [pageLoop_cons_none _ _ _ _ _ hr', hB']; simp
+    | some t => rw [pageLoop_cons_some _ _ _ _ _ t hr', hB1']; simp
 
 /-- **Tuple-level isolation in a file.**  The same inside a heap file `a ++ page ++ b` (`a` a whole number of pages):
 damage to one tuple's storage in `page` changes nothing of what ReadTuples reports for the pages of `a`, for the
@@ -175,24 +200,35 @@ example : AgreeOutside [1, 2, 3, 4] [1, 9, 9, 4] 1 3 := by
 
 /-! ## resource clause at the tuple level: what one page can report -/
 
-/-- **One page reports at most one page of tuple data — when line pointers do not share storage.**  For ANY page bytes
-(at least 8192) with a valid header whose line-pointer array parses to `items`: if the storage areas of the pointers
-ParsePage accepts (NORMAL, non-empty, inside `[pd_upper, 8192)`) are pairwise disjoint, the data bytes of all reported
-tuples add up to at most 8192.  The hypothesis `hdis` is exactly the class carved out by the OPEN finding
-`C10-page-alias`: PostgreSQL never overlaps tuples, ParsePage does not check it, and without it nothing bounds the sum
-(n pointers to one tuple report n copies: family `resource`, cases 0–2, reports "amplified"). -/
-theorem C10_size_parsePage_disjoint (data : Bytes) (h : PageHeader) (items : List ItemID) (ts : List HeapTuple)
-    (hd : 8192 ≤ data.length) (hh : parseHeader data = .ok h) (hv : validHeader h = true)
-    (hi : parseItems data h.lower = .ok items)
-    (hdis : (items.filter (PageSize.accepted h.upper)).Pairwise PageSize.Disj)
-    (hp : parsePage data = .ok ts) : (ts.map fun t => t.data.length).sum ≤ 8192 := by
-  rw [parsePage_items data hd h hh hv items hi] at hp
-  exact Nat.le_trans (PageSize.collect_weight data hd h.upper items ts hp) (PageSize.weight_le_page h.upper items hdis)
+/-- **One page reports at most one page of tuple data — for EVERY byte string.**  Whatever `data` holds (any header, any
+line-pointer array, pointers sharing storage in any way), the data bytes of all tuples ParsePage reports add up to at
+most 8192.  ParsePage skips a NORMAL pointer whose storage overlaps the storage of a tuple it has already reported (fix
+heap/02), so the reported tuples occupy pairwise disjoint pieces of the page.  Before the fix this held only under the
+hypothesis that accepted pointers do not share storage (finding `C10-page-alias`: n pointers to one tuple reported n
+copies; family `resource`, cases 0–2, now report "ok"). -/
+theorem C10_size_parsePage (data : Bytes) (ts : List HeapTuple) (hp : parsePage data = .ok ts) :
+    (ts.map fun t => t.data.length).sum ≤ 8192 :=
+  PageSize.parsePage_dataSum_le data ts hp
 
-/-- the hypothesis is satisfiable (two accepted pointers with disjoint storage) and is what fails for aliasing pointers -/
-example : ([⟨8000, 100, 1⟩, ⟨8100, 92, 1⟩].filter (PageSize.accepted 7000)).Pairwise PageSize.Disj := by
-  simp [PageSize.accepted, PageSize.Disj]
-example : ¬ ([⟨8000, 100, 1⟩, ⟨8000, 100, 1⟩].filter (PageSize.accepted 7000)).Pairwise PageSize.Disj := by
-  simp [PageSize.accepted, PageSize.Disj]
+/-- the same for a whole file: ReadTuples reports at most 8192 bytes of tuple data per whole page of the input — never
+more tuple data than the file holds. -/
+theorem C10_size_readTuples (data : Bytes) (vis : Bool) (es : List TupleEntry) (h : readTuples data vis = .ok es) :
+    (es.map fun e => e.tuple.data.length).sum ≤ 8192 * (data.length / 8192) :=
+  PageSize.readTuples_dataSum_le data vis es h
+
+/-- ParsePage's guarded loop returns for every page of at least 8192 bytes, every pd_upper, every pointer list and
+whatever is already claimed (totality of the new loop; `Heap.C10_total_parsePage` is the statement for ParsePage). -/
+theorem C10_total_pageLoop (data : Bytes) (hd : 8192 ≤ data.length) (upper : Nat) (items claimed : List ItemID) :
+    ∃ ts, pageLoop data upper items claimed = .ok ts :=
+  pageLoop_total data hd upper items claimed
+
+/-- the aliasing page of the finding in miniature: three NORMAL pointers to ONE 24-byte tuple at the end of an 8192-byte
+page are reported as one tuple, not three -/
+example :
+    let lp : Bytes := le 4 (8168 + 2 ^ 15 + 2 ^ 17 * 24)
+    let page : Bytes := zeros 12 ++ le 2 36 ++ le 2 8168 ++ le 2 8192 ++ le 2 0x2004 ++ zeros 4 ++ lp ++ lp ++ lp ++
+      zeros (8168 - 36) ++ (zeros 20 ++ le 2 0x0900 ++ [24, 0])
+    (parsePage page).toOption.map List.length = some 1 := by
+  decide +kernel
 
 end PgVerif.Props.C10.Isolation
